@@ -84,7 +84,7 @@ class Rule_LT08(BaseRule):
             )
 
             # Work forward to map out the following segments.
-            while (
+            while seg_idx < len(forward_slice) and (
                 forward_slice[seg_idx].is_type("comma")
                 or not forward_slice[seg_idx].is_code
             ):
@@ -105,6 +105,12 @@ class Rule_LT08(BaseRule):
                     comma_line_idx = line_idx
                     comma_seg_idx = seg_idx
                 seg_idx += 1
+
+            # If nothing but commas and non-code follows, this bracket is not
+            # followed by another CTE or the main query (e.g. it's a bracketed
+            # final query), so there's nothing to require a blank line before.
+            if seg_idx >= len(forward_slice):
+                continue
 
             # Check if the next code segment is CYCLE or SEARCH
             # These are part of the CTE definition itself (PostgreSQL),
